@@ -195,6 +195,7 @@ def cut_loop(I, s, st, lab, spec, cond, pre_body, post_body, at_head, auto_inv, 
             st.heap[oid] = rec
     # ---- havoc
     names, subs, attrs, calls = assigned_in(s.body)
+    stable_refs = []
     names |= set(extra_havoc)
     names |= set(spec.get("havoc_locals", ()))
     hv = st
@@ -233,6 +234,11 @@ def cut_loop(I, s, st, lab, spec, cond, pre_body, post_body, at_head, auto_inv, 
             cur = I.read_field(hv, b, attr)
             so = V.sort_of(cur)
             if so is None:
+                if isinstance(cur, Ref):
+                    # reference-valued field assigned in the body: accepted only if every iteration re-binds it to the SAME object
+                    # (checked at the end of the body); the object's own fields are havocked through their own stores / callee frames
+                    stable_refs.append((b.oid, attr, cur.oid))
+                    continue
                 raise ToolLimit("loop %s: attribute store %s of non-scalar" % (lab, attr))
             hv.heap[b.oid] = hv.heap[b.oid].with_field(attr, ctx.fresh("%s.%s" % (hv.heap[b.oid].name, attr), so))
     for hx in spec.get("havoc_arrays", ()):
@@ -305,6 +311,10 @@ def cut_loop(I, s, st, lab, spec, cond, pre_body, post_body, at_head, auto_inv, 
                 outs.append((k, s2, v))
         ends = I.merge_states(ends)
         for e in ends:
+            for (ooid, attr_, roid) in stable_refs:
+                nowv = e.heap[ooid].fields.get(attr_)
+                if not (isinstance(nowv, Ref) and nowv.oid == roid):
+                    raise ToolLimit("loop %s: the body re-binds %s to a different object" % (lab, attr_))
             for lem in spec.get("end_lemmas", ()):
                 h = eval_clause(I, lem, e, 0)
                 if h is not True:
